@@ -930,6 +930,9 @@ func decide(o *Obligation, cfg *SolverCfg, known []KnownFinding, prop string, op
 	}
 	if res.Status == "sat" {
 		r.Status = "failed"
+	} else if os.Getenv("VP_TRIAGE") != "" {
+		// development aid: no long retries, report the obligation as undecided at once
+		r.Status = "undecided"
 	} else {
 		// retry once, alone, with three times the limit
 		cfg3 := *cfg
